@@ -69,6 +69,11 @@ type c04In struct {
 	Remote     []c04Frame  `json:"remote"`
 	Prims      []c04Verify `json:"prims"`
 	WriteFail  int         `json:"write_fail"` // index of the local write that fails, -1 none
+	// an earlier, complete inbound handshake of the same remote with the same handshake service
+	// instance, while the registry answered prior_registered (the measured handshake is judged on
+	// what the registry answers at *its* moment)
+	Prior           []c04Frame `json:"prior,omitempty"`
+	PriorRegistered bool       `json:"prior_registered,omitempty"`
 }
 type c04Obs struct {
 	Outcome   string     `json:"outcome"` // admitted | refused
@@ -272,6 +277,18 @@ func c04Run(t *testing.T, in *c04In, w *c04World, ed bool) (obs c04Obs) {
 	if ed {
 		pid = w.edID
 	}
+	if len(in.Prior) > 0 {
+		reg.answer = in.PriorRegistered
+		var pw []byte
+		for _, f := range in.Prior {
+			pw = append(pw, c04FrameBytes(f)...)
+		}
+		ps := &c04Stream{rd: bytes.NewReader(pw), conn: &c04Conn{pid: pid}, writeFail: -1}
+		_, _ = hs.Handle(context.Background(), newStream(ps, nil, nil), pid)
+		reg.mu.Lock()
+		reg.answer, reg.lookups = in.Registered, 0
+		reg.mu.Unlock()
+	}
 	var wire []byte
 	for _, f := range in.Remote {
 		b := c04FrameBytes(f)
@@ -443,6 +460,30 @@ func TestVerifC04(t *testing.T) {
 							}
 						}
 					}
+				}
+			}
+		}
+	}
+	// the same remote handshakes again with the same service instance after its stake changed
+	for _, level := range []string{"service", "caller"} {
+		for _, inbound := range []bool{true, false} {
+			for _, lr := range localRoles {
+				for _, pr := range [][2]bool{{true, false}, {false, true}, {true, true}, {false, false}} {
+					rq := reqFrame("provider", "tok", "valid")
+					remote := []c04Frame{rq, echo(lr, "right")}
+					if !inbound {
+						remote = []c04Frame{echo(lr, "right"), rq}
+					}
+					ownRole := p2p.PeerType(lr).String()
+					in := &c04In{Tag: "re-handshake-after-stake-change", Inbound: inbound, Level: level, LocalRole: lr, OwnAddr: hx(ownAddr),
+						OwnRole: hx([]byte(ownRole)), OwnToken: hx([]byte("token-local")), OwnSig: hx(sign(w.localKey, ownRole+"token-local")),
+						Registered: pr[1], Remote: remote, WriteFail: -1, Prims: []c04Verify{},
+						Prior: []c04Frame{reqFrame("provider", "tok0", "valid"), echo(lr, "right")}, PriorRegistered: pr[0]}
+					s := hx(remAddr)
+					in.PeerAddr = &s
+					sg, _ := hex.DecodeString(rq.Sig)
+					in.Prims = append(in.Prims, c04Prim(sg, []byte("provider"+"tok")))
+					out.emit(in, c04Run(t, in, w, false))
 				}
 			}
 		}
